@@ -49,12 +49,15 @@ def cases(draw):
             op["omit"] = draw(st.lists(st.sampled_from(keys), min_size=1, max_size=3, unique_by=lambda k: tuple(k)))
         if kind == "compile":
             op["sym"] = draw(st.sampled_from(["SX", "MX"]))
+        elif draw(st.integers(0, 3)) == 0:
+            op["container"] = "defaultdict"  # the supplied dictionary is a dict subclass that inserts on a missing-key lookup
         if draw(st.integers(0, 2)) == 0:
             op["drop"] = draw(st.sampled_from([["delta"], ["phi"], ["delta", "phi"]]))  # optional model parameters omitted in this step
         if draw(st.integers(0, 3)) == 0 and ops:
             op = dict(draw(st.sampled_from(ops)))  # exact repetition of an earlier operation
         ops.append(op)
-    return {"spec": sp, "values": [A, B], "ops": ops}
+    # one engine object per kind kept for the whole history (what a user's script does) or a fresh one per call
+    return {"spec": sp, "values": [A, B], "ops": ops, "keep_engine": draw(st.booleans())}
 
 
 def strategy(tier):
@@ -92,7 +95,11 @@ class Supplied:
         self.ic.setdefault(el, {})[var] = sym
         self.snaps.append(("symbol", el, var, sym, type(sym)(sym), None, tuple(sym.shape), None))
 
-    def freeze(self):
+    def freeze(self, container=None):
+        if container == "defaultdict":
+            import collections
+
+            self.ic = collections.defaultdict(dict, self.ic)
         self.dicts = {el: (d, dict(d)) for el, d in self.ic.items()}
         self.outer_keys = list(self.ic.keys())
 
@@ -110,6 +117,16 @@ class Supplied:
                 same = tuple(obj.shape) == shp and bool(cs.is_equal(obj, b0, 3))
                 if not same:
                     ctx.fail(f"{what}:supplied-symbol:{var}", f"{what}: the symbol supplied as {var} of {el.name} was modified: now {obj}")
+
+
+def _engine(persist, shared, kind):
+    make = (lambda: NumpyEngine(0.5)) if kind == "numpy" else (lambda: CasadiEngine(kind))
+    if not shared or not persist or not persist.get(("_keep_engine", "")):
+        return make()
+    key = ("_engine", kind)
+    if key not in persist:
+        persist[key] = make()
+    return persist[key]
 
 
 def run_op(ctx, sp, op, values, bundle, prev_next, shared, persist=None):
@@ -158,14 +175,15 @@ def run_op(ctx, sp, op, values, bundle, prev_next, shared, persist=None):
                 for var, vals in s.items():
                     if (i, var) not in omit:
                         sup.add_array(els[i], var, np.array(vals, dtype=float))
-        sup.freeze()
-        r = guarded(ctx, f"{tag}-step", lambda: net.step(init_conditions=sup.ic, engine=NumpyEngine(0.5), **opts, **pars))
+        sup.freeze(op.get("container"))
+        eng = _engine(persist, shared, "numpy")
+        r = guarded(ctx, f"{tag}-step", lambda: net.step(init_conditions=sup.ic, engine=eng, **opts, **pars))
         if crashed(r):
             return None, sup
         return numeric_next(els), sup
     sym = op.get("sym", kind)
     XX = getattr(cs, sym)
-    eng = CasadiEngine(sym)
+    eng = _engine(persist, shared, sym)
     if kind == "compile":
         r = guarded(ctx, f"{tag}-step", lambda: net.step(engine=eng, **opts, **pars))
         if crashed(r):
@@ -188,7 +206,7 @@ def run_op(ctx, sp, op, values, bundle, prev_next, shared, persist=None):
             sup.add_symbol(els[i], var, x)
             syms.append(x)
             vals_in.append(cs.DM(np.array(vals, dtype=float).reshape(-1, 1)))
-    sup.freeze()
+    sup.freeze(op.get("container"))
     r = guarded(ctx, f"{tag}-step", lambda: net.step(init_conditions=sup.ic, engine=eng, **opts, **pars))
     if crashed(r):
         return None, sup
@@ -235,13 +253,16 @@ def check_case(case, ctx):
         return
     params0 = snap_params(shared[1])
     prev_shared = None
-    persist = {}
+    persist = {("_keep_engine", ""): bool(case.get("keep_engine"))}
+    ctx.label("engine:kept" if case.get("keep_engine") else "engine:fresh-per-call")
     seen_ops, used_vals, repeated = [], set(), False
     last_kind = None
     for k, op in enumerate(ops):
         ctx.label("op:" + op["kind"])
         if op.get("omit"):
             ctx.label("partial-init")
+        if op.get("container"):
+            ctx.label("container:" + op["container"])
         if op["opts"]:
             ctx.label("opts")
         if op["kind"].startswith("numpy") and last_kind in ("SX", "MX", "compile"):
